@@ -27,10 +27,19 @@ def run(ctx):
             ['*', '*/'], ['sub', 'sub/'], ['**/*', '**/*/'], 'nlink', 'd*/', '**/x*', './*', 'real/./x.txt',
             'b/**/deep.txt', 'sub/**/*.txt', 'b/**/sub/*', 'real/**/y.txt', 'x/**/f', '*/**/x*', 'a/**', 'sub/**',
             # segments that can match `.` as well as a real directory (pathlib normalises `./x` and `x/.` to the same path)
-            '@(sub|.)/@(sub|.)', '@(.|.hd)/.*', '@(a|.)/@(b|.)', '.*/.*', '@(real|.)/*']
+            '@(sub|.)/@(sub|.)', '@(.|.hd)/.*', '@(a|.)/@(b|.)', '.*/.*', '@(real|.)/*',
+            # four and more segments with a wildcard directory that has siblings (each sibling is searched with the whole rest
+            # of the pattern); names that are also reachable through a symlinked directory some levels up
+            'pkg/*/lib/mod.py', '*/*/lib/*', 'pkg/*/*/mod.py', 'pkg/?/lib/*.py', 'f2.txt', 's2/*', 's1/*/f2.txt', '*/s2/*']
     for ti in range(len(trees.DESIGNED) + (3 if ctx.quick else 30)):
         spec = trees.DESIGNED[ti] if ti < len(trees.DESIGNED) else trees.random_spec(rng, size=rng.randint(5, 12))
-        with trees.Tree(spec + [('pkg.d', 'd', None), ('pkg.d/m.py', 'f', None)]) as T:
+        deepx = [('pkg', 'd', None), ('pkg/x', 'd', None), ('pkg/x/lib', 'd', None), ('pkg/x/lib/mod.py', 'f', None), ('pkg/y', 'd', None), ('pkg/y/lib', 'd', None),
+                 ('pkg/y/lib/mod.py', 'f', None), ('pkg/z', 'd', None), ('pkg/z/lib', 'd', None), ('pkg/z/lib/other.py', 'f', None),
+                 ('rl', 'd', None), ('rl/s1', 'd', None), ('rl/s1/s2', 'd', None), ('rl/s1/s2/f2.txt', 'f', None), ('rl/h2.txt', 'f', None), ('lnk2', 'l', 'rl')]
+        names0 = set(e[0].split('/')[0] for e in spec)
+        if names0 & {'pkg', 'rl', 'lnk2'}:
+            deepx = []
+        with trees.Tree(spec + [('pkg.d', 'd', None), ('pkg.d/m.py', 'f', None)] + deepx) as T:
             cyc = globcommon.has_dir_cycle(T.root)
             old = os.getcwd()
             os.chdir(T.root)
@@ -74,7 +83,7 @@ def run(ctx):
                         #  paths by another route than match() takes; that spelling question is left to the duplicates clause)
                         if isinstance(pat, str) and not (fv & (PL.NODIR | PL.NEGATE)) and './' not in pat and not (fv & PL.SCANDOTDIR and '.' in pat):
                             yielded = set(os.path.relpath(str(p), T.root) for p in PL.Path('.').rglob(pat, flags=fv))
-                            for q in T.entries():
+                            for q in sorted(set(T.entries()) | (set() if cyc else set(T.entries_follow()))):
                                 evals += 1
                                 mq = PL.Path(q).match(pat, flags=fv | PL.REALPATH)
                                 if mq != (q in yielded):
@@ -88,7 +97,10 @@ def run(ctx):
                                         kid = 'C04-final-gstar-link-to-nondir'
                                     elif pat.endswith('/') and not os.path.isdir(full):
                                         kid = 'C04-gstar-div-accepts-file'
-                                    elif any(os.path.islink(os.path.join(T.root, *q.split('/')[:k])) for k in range(1, len(q.split('/')) + 1)):
+                                    elif not mq and any(os.path.islink(os.path.join(T.root, *q.split('/')[:k])) for k in range(1, len(q.split('/')) + 1)) and \
+                                            ('**' in pat or (fv & PL.GLOBSTARLONG and fv & PL.FOLLOW)):
+                                        # rglob yields it, match() rejects it: the path splits in several ways between the implied
+                                        # recursive prefix and a written `**`, and only the first split is examined for symlinks
                                         kid = 'C04-first-decomposition-only'
                                     elif '(' in pat:
                                         kid = 'C02-group-segment-empty'
